@@ -216,6 +216,7 @@ type Unit struct {
 	usedExternal  map[string]bool
 	usedContracts map[string]bool
 	sweep         bool // zero-annotation sweep: only safety obligations matter
+	closure       *closureCtx
 	axiomsUsed    map[string]bool
 	tracking      map[string]string // when non-nil: components read while evaluating an opaque predicate body
 }
